@@ -268,3 +268,45 @@ def _empty_vec(ctx, v):
     if v[0] == "call" and isinstance(v[3], str) and generic_path(v[3]).endswith("Vec::new"):
         return True
     return False
+
+
+def check_query_pool(ctx, inst):
+    """AssetInfo::query_pool(self, querier, api, account) is the balance of exactly that asset held by exactly that account:
+    Token -> cw20 balance query at the token contract for `account`; NativeToken -> bank balance of `account` in that denom."""
+    P = ctx.P
+    N = ctx.N
+    try:
+        f = N.query_pool
+        qb, qt = N.q_balance, N.q_token_balance
+    except AnchorMissing as e:
+        inst.fail("%s:query-pool:anchor" % inst.id, "-", "-", "anchor-missing: %s" % e)
+        return None
+    d = "discr(%s)" % P_(f, 0)
+    acct = P_(f, 3)
+    seen = set()
+    for b, v, cs in fn_table(ctx, f):
+        if common.classify_ret_value(v) == "err":
+            continue
+        where = common.span_of_block_term(f, b)
+        kinds = [x for x in ("Token", "NativeToken") if "%s in ['%s']" % (d, x) in cs]
+        calls = [x for x in common.walk(v) if x[0] == "call" and isinstance(x[3], str) and (N.is_fn(x[3], "q_balance") or N.is_fn(x[3], "q_token_balance"))]
+        if len(kinds) != 1 or len(calls) != 1:
+            inst.fail("%s:query-pool:shape" % inst.id, f.path, where, "balance helper returns %s under {%s}: unrecognised-idiom" % (ctx.show(v, 3), "; ".join(sorted(cs))[:200]))
+            continue
+        q = calls[0]
+        if kinds[0] == "NativeToken":
+            ok = N.is_fn(q[3], "q_balance") and set(ctx.roots(q[4][1])) == {acct} and set(ctx.roots(q[4][2])) == {P_(f, 0, "~NativeToken.denom")}
+        else:
+            ok = N.is_fn(q[3], "q_token_balance") and set(ctx.roots(q[4][2])) == {acct} and \
+                set(ctx.roots(q[4][1])) in ({"valid(%s)" % P_(f, 0, "~Token.contract_addr")}, {P_(f, 0, "~Token.contract_addr")})
+        if not ok:
+            inst.fail("%s:query-pool:%s" % (inst.id, kinds[0]), f.path, where, "for a %s asset the balance helper queries %s(%s), not that asset's balance of the given account" % (
+                kinds[0], common.short_path(q[3]), ", ".join("|".join(sorted(ctx.roots(a))) for a in q[4][1:])))
+        else:
+            seen.add(kinds[0])
+    if seen == {"Token", "NativeToken"}:
+        inst.site("%s: balance of (asset, account) — bank balance for native, cw20 balance for tokens" % f.path)
+        return f
+    if inst.status == "pass":
+        inst.fail("%s:query-pool:incomplete" % inst.id, f.path, f.span, "balance helper does not cover both asset kinds")
+    return None
